@@ -171,3 +171,7 @@ def run(ctx, eng):
            ['connection.H2Connection._receive_goaway_frame'],
            'queued output is dropped only on a received GOAWAY (found %s)'
            % [c.split('.')[-1] for c in callers])
+    cm.include(ctx, eng, 'C21', {'ARITH.slice'},
+               'an ACK that was queued is handed out whole: data_to_send '
+               'partitions the buffer')
+    cm.check_event_classes(ctx, eng, {'PingReceived', 'PingAckReceived'})
